@@ -78,6 +78,31 @@ def coll_small_try_exec():
     return f
 
 
+def coll_try_tail_exec():
+    """node / array collections driven through the composable interface until every bucket has refused: the tail of
+    the block goes to whichever bucket asks first (insert_rest on the try_ path), later buckets find what is left"""
+    def f(rng):
+        bd = rng.choice(["identity", "log2"])
+        h = {"fam": "coll", "type": rng.choice(["node", "array"]), "bd": bd, "src": rng.choice(["fixed", "fixed", "grow"]),
+             "ns": rng.choice([12, 16, 24, 32]) if bd == "identity" else rng.choice([32, 64, 100]),
+             "bs": rng.choice([1024, 1500, 2048, 3000, 4096]) if bd == "log2" else rng.choice([2048, 3000, 4096]),
+             "place": rng.choice(["lo", "hi"]), "member": rng.choice([0, 1])}
+        sizes = [x for x in (8, 9, 12, 16, 17, 24, 31, 32, 33, 64, 100) if x <= h["ns"]]
+        cmds = []
+        for rnd in range(rng.randint(2, 3)):
+            for sz in rng.sample(sizes, len(sizes)):
+                for _ in range(rng.choice([10, 40, 120])):
+                    cmds.append("tn %d 1" % sz)
+                if rng.random() < 0.3:
+                    cmds.append("ta %d %d 1" % (rng.choice([2, 3, 5]), sz))
+                cmds.append("sweep")
+            for _ in range(rng.randint(0, 30)):
+                cmds.append("td %d" % rng.randint(0, 300))
+        cmds.append("sweep")
+        return [(h, cmds)]
+    return f
+
+
 def coll_max_exec():
     """array requests at and just below / above what the collection reports as max_array_size(), with element sizes
     that round up to bigger bucket nodes (F26, F27)"""
@@ -333,7 +358,7 @@ def jobs_for(prop, tier, seed):
             J.append(Job(cfg, SEQ[0], SEQ[1], _batch(r, scale, makers), label))
 
     if prop in ("C01", "C02"):
-        add(["rel", "base", "dbg", "f16"], "pools", [(14, pool_exec()), (10, coll_exec()), (4, coll_fill_exec()), (3, coll_small_try_exec())])
+        add(["rel", "base", "dbg", "f16"], "pools", [(14, pool_exec()), (10, coll_exec()), (4, coll_fill_exec()), (3, coll_small_try_exec()), (3, coll_try_tail_exec())])
         add(["rel", "base", "dbg", "f16"], "stacks", [(8, stack_exec()), (8, iter_exec()), (2, static_exec()),
                                                       (3, stack_replay_exec())])
         add(["base", "dbg"], "moves", [(4, moved(pool_exec())), (3, moved(coll_exec())), (3, moved(stack_exec())),
@@ -404,7 +429,7 @@ def jobs_for(prop, tier, seed):
     elif prop == "C18":
         add(["rel", "base", "dbg", "f16"], "counters", [(8, pool_exec()), (6, coll_exec()), (8, stack_exec()), (6, iter_exec()),
                                                         (2, static_exec()), (6, arena_exec(moves=False))])
-        add(["rel", "base", "dbg", "f16"], "maxima", [(6, coll_max_exec())])
+        add(["rel", "base", "dbg", "f16"], "maxima", [(6, coll_max_exec()), (6, coll_try_tail_exec())])
         # a request that fails because the upstream refuses must leave every figure as it was
         add(["rel", "base", "dbg"], "faults", [(4, pool_exec(fail=True)), (4, coll_exec(fail=True)), (5, stack_exec(fail=True)),
                                                (2, fail_all_positions(stack_exec(n=30))), (2, fail_all_positions(pool_exec(n=30)))])
